@@ -211,11 +211,24 @@ def namespaces(repo, res):
     ns = us.assign("_namespace")
     res.check(norm(ns) == "globals()", "unit_symbols:namespace", "unyt/unit_symbols.py", "names are exported into the module namespace", rid=r4)
     init = repo.mod("unyt/__init__.py")
-    calls = [(n.lineno, norm(n.value)) for n in init.tree.body if isinstance(n, ast.Expr) and isinstance(n.value, ast.Call) and norm(n.value.func) == "import_units"]
+    from engine.sem import cnorm
+
+    calls = [(n.lineno, cnorm(n.value)) for n in init.tree.body if isinstance(n, ast.Expr) and isinstance(n.value, ast.Call) and norm(n.value.func) == "import_units"]
     res.check([c for _, c in calls] == ["import_units(physical_constants, globals())", "import_units(unit_symbols, globals())"], "init:order", "unyt/__init__.py", "constants are imported before unit symbols (a name that is both denotes the constant)", found=calls, rid=r4)
+    # ... and import_units never overwrites a name that is already there
     iu = init.func("import_units")
-    txt = norm(iu.node)
-    res.check("if key not in namespace and isinstance(value, (unyt_quantity, Unit))" in txt and "namespace[key] = value" in txt, "init:no-overwrite", iu.where(), "import_units never overwrites an existing name and imports only units / quantities", rid=r4)
+    from engine.sem import summarise
+
+    lp = [n for n in iu.body if isinstance(n, ast.For)]
+    ok = len(lp) == 1 and isinstance(lp[0].target, ast.Tuple)
+    if ok:
+        k_, v_ = [norm(e) for e in lp[0].target.elts]
+        nsname = iu.params[1]
+        for x in summarise(iu, body=lp[0].body, keep={k_, v_, nsname}):
+            stores = [e for e in x.effects if e.startswith(f"{nsname}[{k_}] =")]
+            if stores:
+                ok &= x.has(f"{k_} in {nsname}", False) and x.has(f"isinstance({v_}, (unyt_quantity, Unit))", True) and stores == [f"{nsname}[{k_}] = {v_}"]
+    res.check(ok, "init:no-overwrite", iu.where(), "import_units keeps the first binding of a name (so the constant, imported first, wins over a unit of the same name) and imports only units / quantities", rid=r4)
     fn = repo.mod(US).func("add_symbols")
     res.fn(fn)
     txt = norm(fn.node)
